@@ -221,6 +221,12 @@ pub fn directed() -> Vec<Input> {
     add("constant shift by negative", "const short k = 1 << -1;\nvoid main() {}\n");
     add("constant product overflow", "const short k = 65536 * 65536;\nvoid main() {}\n");
     add("constant sum overflow", "const short k = 2147483647 + 1;\nvoid main() {}\n");
+    add("constant min divided by -1", "const char b = (-2147483647 - 1) / -1;\nvoid main() { X = b; }\n");
+    add("constant min divided by -1 in an array size", "char t[(-2147483647 - 1) / -1];\nvoid main() { }\n");
+    add("folded min divided by -1", "char a;\nvoid main() { a = (-2147483647 - 1) / -1; }\n");
+    add("constant min times -1", "const char b = (-2147483647 - 1) * -1;\nchar a;\nvoid main() { a = (-2147483647 - 1) * -1; }\n");
+    add("constant min minus 1", "const char b = (-2147483647 - 1) - 1;\nchar a;\nvoid main() { a = (-2147483647 - 1) - 1; }\n");
+    add("preprocessor min divided by -1", "#if (-2147483647 - 1) / -1\nchar a;\n#endif\nvoid main() { }\n");
     add("constant negate min", "const short k = -(-2147483647 - 1);\nvoid main() {}\n");
     add("statement constant product overflow", "short s;\nvoid main() { s = 65536 * 65536; }\n");
     add("statement shift overflow", "short s;\nvoid main() { s = 1 << 40; }\n");
